@@ -25,5 +25,9 @@ cp /repo/Cargo.lock work/depsbuild/Cargo.lock
 (cd work/depsbuild && cargo +$TC build --offline 2>&1 | tail -3)
 (cd work && verus ../stubs/anyhow.rs --crate-type=lib --crate-name anyhow --export anyhow.vir --compile -o libanyhow.rlib 2>&1 | tail -2)
 (cd tools/spanmap && CARGO_TARGET_DIR=../../work/spanmap-target cargo build --release --offline 2>&1 | tail -2)
+# warm the dependency cache of the bounded differential check (tools/replay links the tree under check by path)
+mkdir -p work/replay-crate && rm -rf work/replay-crate/src && cp -r tools/replay/src work/replay-crate/src
+sed "s#@REPO@#/repo#" tools/replay/Cargo.toml.in > work/replay-crate/Cargo.toml && cp /repo/Cargo.lock work/replay-crate/Cargo.lock
+(cd work/replay-crate && CARGO_TARGET_DIR=../replay-target cargo build --release --offline 2>&1 | tail -2)
 sha256sum /repo/Cargo.lock > work/setup.stamp
 echo "setup done"
